@@ -123,6 +123,8 @@ pub struct Case {
     pub dinit: bool,
     // tls mode only
     pub clientcert: bool,
+    /// minimum ClientHello size (0 = rustls default hello)
+    pub bighello: usize,
     pub pre: Vec<u8>,
     pub plain: Vec<u8>,
     pub split: usize,
@@ -438,6 +440,7 @@ pub fn parse_case(lines: &[&str], tls_mode: bool) -> Result<Case, (usize, String
         tls: false,
         dinit: false,
         clientcert: false,
+        bighello: 0,
         pre: Vec::new(),
         plain: Vec::new(),
         split: 0,
@@ -520,6 +523,13 @@ pub fn parse_case(lines: &[&str], tls_mode: bool) -> Result<Case, (usize, String
                                 "1" => true,
                                 _ => return Err(e("clientcert must be 0 or 1".into())),
                             }
+                        }
+                        "bighello" if tls_mode => {
+                            let n: usize = parse_dec(v, "bighello").map_err(e)?;
+                            if n > 65000 {
+                                return Err(e("bighello must be <= 65000".into()));
+                            }
+                            c.bighello = n;
                         }
                         "dinit" => {
                             c.dinit = match v {
